@@ -300,6 +300,10 @@ def items(tier, seed):
             out.append(dict(name=f'tsc/3x3x1/N=2/xslab={sl}', kind='tsc', shape=(3, 3, 1), w=True, N=2, slab=sl))
             out.append(dict(name=f'cic/3x3x1/N=2/xslab={sl}', kind='cic', shape=(3, 3, 1), w=True, N=2, slab=sl))
     out.append(dict(name='wrap', kind='wrap'))
+    # thread / partition settings: with a multi-stripe partition (and the in-stripe sort) the kernel must still be handed
+    # every particle once, with its own weight (the obligation is shared with C07, where it is defined)
+    out.append(dict(name='wiring/N=2/n1d=4/npartition=2/nthread=1', kind='wiring', N=2, n1d=4, npart=2, nthread=1))
+    out.append(dict(name='wiring/N=3/n1d=7/npartition=2/nthread=2', kind='wiring', N=3, n1d=7, npart=2, nthread=2))
     out.append(dict(name='support', kind='support'))
     out.append(dict(name='wrapper/3x3x1/axis0', kind='wrapper', shape=(3, 3, 1), axes=[0]))
     if tier == 'thorough':
@@ -312,6 +316,9 @@ def run(item):
     k = item['kind']
     if k in ('tsc', 'cic'):
         return common.run_paths(lambda: body_scatter(k, tuple(item['shape']), item['w'], item['N'], item.get('slab')), cov_funcs=FUNCS, max_paths=60000)[0]
+    if k == 'wiring':
+        from checks import c07
+        return c07.run(item)
     if k == 'wrap':
         return common.run_paths(body_wrap, cov_funcs=FUNCS)[0]
     if k == 'support':
@@ -367,6 +374,9 @@ def validate(tier):
 def replay(e, path):
     i = e['info'].get('case', {})
     m = e.get('model', {})
+    if i.get('kind') == 'wiring':
+        from checks import c07
+        return c07.replay(e, path)
     body = f'''
 os.environ['NUMBA_BOUNDSCHECK'] = '1'
 from fractions import Fraction as F
